@@ -6,7 +6,7 @@
    Only statements; every proof is `exact <lemma>` (proofs live in the files imported below). *)
 From Coq Require Import Arith List Bool Reals Floats.
 Import ListNotations.
-From MT Require Import Arith J SweepModel RInst Spec EmProofs AscentProofs GenParams GenGuards GuardDefs GuardUpdate.
+From MT Require Import Arith J SweepModel RInst Spec EmProofs AscentProofs GenParams.
 Local Open Scope R_scope.
 
 (* general affinity, directed and undirected: for every well-formed graph view and every state whose membership rows outside *)
@@ -61,280 +61,6 @@ Theorem C02_graphs_from_builder : forall (label : Type) (leqb : label -> label -
        wfG (GraphModel.num_vertices label net) L (GraphModel.graph_of label directed net).
 Proof. exact build_wfG. Qed.
 Print Assumptions C02_graphs_from_builder.
-
-(* the comparison operators of the guards and of the truncation, as they stand in solver.hpp now (strict > 1e-6 to update, strict < 1e-6 to snap) *)
-Theorem C02_guard_operators : map (fun r : String.string * String.string * String.string * String.string => (g_lhs r, g_op r))
-         (filter is_update cxx_guards) =
-       [(String.String (Ascii.Ascii false true false true true false true false) String.EmptyString,
-         String.String (Ascii.Ascii false true true true true true false false) String.EmptyString);
-        (String.String (Ascii.Ascii true false true true false true true false)
-           (String.String (Ascii.Ascii true false false false false true true false)
-              (String.String (Ascii.Ascii false false true false true true true false)
-                 (String.String (Ascii.Ascii true true true true true false true false)
-                    (String.String (Ascii.Ascii false false true false true true true false)
-                       (String.String (Ascii.Ascii true true true true false true true false)
-                          (String.String (Ascii.Ascii true true true true true false true false)
-                             (String.String (Ascii.Ascii true false true false true true true false)
-                                (String.String
-                                   (Ascii.Ascii false false false false true true true false)
-                                   (String.String
-                                      (Ascii.Ascii false false true false false true true false)
-                                      (String.String
-                                         (Ascii.Ascii true false false false false true true false)
-                                         (String.String
-                                            (Ascii.Ascii false false true false true true true false)
-                                            (String.String
-                                               (Ascii.Ascii true false true false false true true false)
-                                               (String.String
-                                                  (Ascii.Ascii true true true true true false true
-                                                     false)
-                                                  (String.String
-                                                     (Ascii.Ascii true true true true false true true
-                                                        false)
-                                                     (String.String
-                                                        (Ascii.Ascii false false true true false true
-                                                           true false)
-                                                        (String.String
-                                                           (Ascii.Ascii false false true false false
-                                                              true true false)
-                                                           (String.String
-                                                              (Ascii.Ascii false false false true false
-                                                                 true false false)
-                                                              (String.String
-                                                                 (Ascii.Ascii true false false true
-                                                                    false true true false)
-                                                                 (String.String
-                                                                    (Ascii.Ascii false false true true
-                                                                       false true false false)
-                                                                    (String.String
-                                                                       (Ascii.Ascii false false false
-                                                                          false false true false false)
-                                                                       (String.String
-                                                                          (Ascii.Ascii true true false
-                                                                          true false true true false)
-                                                                          (String.String
-                                                                          (Ascii.Ascii true false false
-                                                                          true false true false false)
-                                                                          String.EmptyString)))))))))))))))))))))),
-         String.String (Ascii.Ascii false true true true true true false false) String.EmptyString);
-        (String.String (Ascii.Ascii false true false true true false true false)
-           (String.String (Ascii.Ascii true false false true false true true false)
-              (String.String (Ascii.Ascii false true false true false true true false)
-                 (String.String (Ascii.Ascii true true true true true false true false)
-                    (String.String (Ascii.Ascii true false false false false true true false)
-                       String.EmptyString)))),
-         String.String (Ascii.Ascii false true true true true true false false) String.EmptyString);
-        (String.String (Ascii.Ascii true true false false true true true false)
-           (String.String (Ascii.Ascii false false true false true true true false)
-              (String.String (Ascii.Ascii false false true false false true true false)
-                 (String.String (Ascii.Ascii false true false true true true false false)
-                    (String.String (Ascii.Ascii false true false true true true false false)
-                       (String.String (Ascii.Ascii true false false false false true true false)
-                          (String.String (Ascii.Ascii false true false false false true true false)
-                             (String.String (Ascii.Ascii true true false false true true true false)
-                                (String.String
-                                   (Ascii.Ascii false false false true false true false false)
-                                   (String.String
-                                      (Ascii.Ascii true false true true false true true false)
-                                      (String.String
-                                         (Ascii.Ascii true false false false false true true false)
-                                         (String.String
-                                            (Ascii.Ascii false false true false true true true false)
-                                            (String.String
-                                               (Ascii.Ascii true true true true true false true false)
-                                               (String.String
-                                                  (Ascii.Ascii false false true false true true true
-                                                     false)
-                                                  (String.String
-                                                     (Ascii.Ascii true true true true false true true
-                                                        false)
-                                                     (String.String
-                                                        (Ascii.Ascii true true true true true false
-                                                           true false)
-                                                        (String.String
-                                                           (Ascii.Ascii true false true false true true
-                                                              true false)
-                                                           (String.String
-                                                              (Ascii.Ascii false false false false true
-                                                                 true true false)
-                                                              (String.String
-                                                                 (Ascii.Ascii false false true false
-                                                                    false true true false)
-                                                                 (String.String
-                                                                    (Ascii.Ascii true false false false
-                                                                       false true true false)
-                                                                    (String.String
-                                                                       (Ascii.Ascii false false true
-                                                                          false true true true false)
-                                                                       (String.String
-                                                                          (Ascii.Ascii true false true
-                                                                          false false true true false)
-                                                                          (String.String
-                                                                          (Ascii.Ascii false false
-                                                                          false true false true false
-                                                                          false)
-                                                                          (String.String
-                                                                          (Ascii.Ascii true false false
-                                                                          true false true true false)
-                                                                          (String.String
-                                                                          (Ascii.Ascii false false true
-                                                                          true false true false false)
-                                                                          (String.String
-                                                                          (Ascii.Ascii false false
-                                                                          false false false true false
-                                                                          false)
-                                                                          (String.String
-                                                                          (Ascii.Ascii true true false
-                                                                          true false true true false)
-                                                                          (String.String
-                                                                          (Ascii.Ascii true false false
-                                                                          true false true false false)
-                                                                          (String.String
-                                                                          (Ascii.Ascii true false false
-                                                                          true false true false false)
-                                                                          String.EmptyString)))))))))))))))))))))))))))),
-         String.String (Ascii.Ascii false false true true true true false false) String.EmptyString);
-        (String.String (Ascii.Ascii false true false true true false true false)
-           (String.String (Ascii.Ascii true true true true true false true false)
-              (String.String (Ascii.Ascii true true false true false true true false)
-                 (String.String (Ascii.Ascii true false false false true true true false)
-                    String.EmptyString))),
-         String.String (Ascii.Ascii false true true true true true false false) String.EmptyString);
-        (String.String (Ascii.Ascii true true true false true true true false)
-           (String.String (Ascii.Ascii true true true true true false true false)
-              (String.String (Ascii.Ascii true true true true false true true false)
-                 (String.String (Ascii.Ascii false false true true false true true false)
-                    (String.String (Ascii.Ascii false false true false false true true false)
-                       (String.String (Ascii.Ascii false false false true false true false false)
-                          (String.String (Ascii.Ascii true true false true false true true false)
-                             (String.String (Ascii.Ascii false false true true false true false false)
-                                (String.String
-                                   (Ascii.Ascii false false false false false true false false)
-                                   (String.String
-                                      (Ascii.Ascii true false false false false true true false)
-                                      (String.String
-                                         (Ascii.Ascii true false false true false true false false)
-                                         String.EmptyString)))))))))),
-         String.String (Ascii.Ascii false true true true true true false false) String.EmptyString);
-        (String.String (Ascii.Ascii false true false true true false true false)
-           (String.String (Ascii.Ascii true false false true false true true false)
-              (String.String (Ascii.Ascii false true false true false true true false)
-                 (String.String (Ascii.Ascii true true true true true false true false)
-                    (String.String (Ascii.Ascii true false false false false true true false)
-                       String.EmptyString)))),
-         String.String (Ascii.Ascii false true true true true true false false) String.EmptyString);
-        (String.String (Ascii.Ascii true true false false true true true false)
-           (String.String (Ascii.Ascii false false true false true true true false)
-              (String.String (Ascii.Ascii false false true false false true true false)
-                 (String.String (Ascii.Ascii false true false true true true false false)
-                    (String.String (Ascii.Ascii false true false true true true false false)
-                       (String.String (Ascii.Ascii true false false false false true true false)
-                          (String.String (Ascii.Ascii false true false false false true true false)
-                             (String.String (Ascii.Ascii true true false false true true true false)
-                                (String.String
-                                   (Ascii.Ascii false false false true false true false false)
-                                   (String.String
-                                      (Ascii.Ascii true true true false true true true false)
-                                      (String.String
-                                         (Ascii.Ascii false false false true false true false false)
-                                         (String.String
-                                            (Ascii.Ascii true true false true false true true false)
-                                            (String.String
-                                               (Ascii.Ascii false false true true false true false
-                                                  false)
-                                               (String.String
-                                                  (Ascii.Ascii false false false false false true false
-                                                     false)
-                                                  (String.String
-                                                     (Ascii.Ascii true false false false false true
-                                                        true false)
-                                                     (String.String
-                                                        (Ascii.Ascii true false false true false true
-                                                           false false)
-                                                        (String.String
-                                                           (Ascii.Ascii true false false true false
-                                                              true false false) String.EmptyString)))))))))))))))),
-         String.String (Ascii.Ascii false false true true true true false false) String.EmptyString);
-        (String.String (Ascii.Ascii false true false true true false true false)
-           (String.String (Ascii.Ascii true true true true true false true false)
-              (String.String (Ascii.Ascii true true false true false true true false)
-                 (String.String (Ascii.Ascii true false false false true true true false)
-                    String.EmptyString))),
-         String.String (Ascii.Ascii false true true true true true false false) String.EmptyString);
-        (String.String (Ascii.Ascii true true true false true true true false)
-           (String.String (Ascii.Ascii true true true true true false true false)
-              (String.String (Ascii.Ascii true true true true false true true false)
-                 (String.String (Ascii.Ascii false false true true false true true false)
-                    (String.String (Ascii.Ascii false false true false false true true false)
-                       (String.String (Ascii.Ascii false false false true false true false false)
-                          (String.String (Ascii.Ascii true true false true false true true false)
-                             (String.String (Ascii.Ascii false false true true false true false false)
-                                (String.String
-                                   (Ascii.Ascii false false false false false true false false)
-                                   (String.String
-                                      (Ascii.Ascii true false false false true true true false)
-                                      (String.String
-                                         (Ascii.Ascii false false true true false true false false)
-                                         (String.String
-                                            (Ascii.Ascii false false false false false true false false)
-                                            (String.String
-                                               (Ascii.Ascii true false false false false true true
-                                                  false)
-                                               (String.String
-                                                  (Ascii.Ascii true false false true false true false
-                                                     false) String.EmptyString))))))))))))),
-         String.String (Ascii.Ascii false true true true true true false false) String.EmptyString);
-        (String.String (Ascii.Ascii false true false true true false true false)
-           (String.String (Ascii.Ascii true false false true false true true false)
-              (String.String (Ascii.Ascii false true false true false true true false)
-                 (String.String (Ascii.Ascii true true true true true false true false)
-                    (String.String (Ascii.Ascii true false false false false true true false)
-                       String.EmptyString)))),
-         String.String (Ascii.Ascii false true true true true true false false) String.EmptyString);
-        (String.String (Ascii.Ascii true true false false true true true false)
-           (String.String (Ascii.Ascii false false true false true true true false)
-              (String.String (Ascii.Ascii false false true false false true true false)
-                 (String.String (Ascii.Ascii false true false true true true false false)
-                    (String.String (Ascii.Ascii false true false true true true false false)
-                       (String.String (Ascii.Ascii true false false false false true true false)
-                          (String.String (Ascii.Ascii false true false false false true true false)
-                             (String.String (Ascii.Ascii true true false false true true true false)
-                                (String.String
-                                   (Ascii.Ascii false false false true false true false false)
-                                   (String.String
-                                      (Ascii.Ascii true true true false true true true false)
-                                      (String.String
-                                         (Ascii.Ascii false false false true false true false false)
-                                         (String.String
-                                            (Ascii.Ascii true true false true false true true false)
-                                            (String.String
-                                               (Ascii.Ascii false false true true false true false
-                                                  false)
-                                               (String.String
-                                                  (Ascii.Ascii false false false false false true false
-                                                     false)
-                                                  (String.String
-                                                     (Ascii.Ascii true false false false true true true
-                                                        false)
-                                                     (String.String
-                                                        (Ascii.Ascii false false true true false true
-                                                           false false)
-                                                        (String.String
-                                                           (Ascii.Ascii false false false false false
-                                                              true false false)
-                                                           (String.String
-                                                              (Ascii.Ascii true false false false false
-                                                                 true true false)
-                                                              (String.String
-                                                                 (Ascii.Ascii true false false true
-                                                                    false true false false)
-                                                                 (String.String
-                                                                    (Ascii.Ascii true false false true
-                                                                       false true false false)
-                                                                    String.EmptyString))))))))))))))))))),
-         String.String (Ascii.Ascii false false true true true true false false) String.EmptyString)].
-Proof. exact update_guards. Qed.
-Print Assumptions C02_guard_operators.
 
 (* the threshold of the documented guards as it stands in params.hpp NOW *)
 Theorem C02_params : cxx_EPS_PRECISION_R = epsR /\ cxx_EPS_PRECISION_F = 0x1.0c6f7a0b5ed8dp-20%float.
